@@ -261,10 +261,8 @@ void NifFile::SetShapeOrder(const std::vector<std::string>& order) {
 	}
 
 	auto root = GetRootNode();
-	if (root) {
-		sortState.newIndex = GetBlockID(root);
-		SetSortIndices(sortState.newIndex, sortState);
-	}
+	if (root)
+		SetSortIndices(GetBlockID(root), sortState);
 
 	for (size_t i = 0; i < sortState.newIndices.size(); i++) {
 		uint32_t index = static_cast<uint32_t>(i);
@@ -416,6 +414,11 @@ void NifFile::SortController(NiTimeController* controller, SortState& sortState)
 }
 
 void NifFile::SortCollision(NiObject* parent, uint32_t parentIndex, SortState& sortState) {
+	// Blocks that are already being sorted further up the call stack are skipped,
+	// otherwise cyclic references recurse without end.
+	if (!sortState.pendingIndices.insert(parentIndex).second)
+		return;
+
 	auto constraint = dynamic_cast<bhkConstraint*>(parent);
 	if (constraint) {
 		for (auto& entityId : constraint->entityRefs) {
@@ -470,6 +473,8 @@ void NifFile::SortCollision(NiObject* parent, uint32_t parentIndex, SortState& s
 				SortCollision(child, id, sortState);
 		}
 	}
+
+	sortState.pendingIndices.erase(parentIndex);
 }
 
 void NifFile::SortShape(NiShape* shape, SortState& sortState) {
@@ -500,7 +505,7 @@ void NifFile::SortShape(NiShape* shape, SortState& sortState) {
 }
 
 void NifFile::SortGraph(NiNode* root, SortState& sortState) {
-	bool isRootNode = GetBlockID(root) == 0;
+	bool isRootNode = root == GetRootNode();
 	SortAVObject(root, sortState);
 
 	std::vector<uint32_t> childIndices;
@@ -541,7 +546,8 @@ void NifFile::SortGraph(NiNode* root, SortState& sortState) {
 
 			if (isRootNode) {
 				// Reorder shapes on root node if order is provided
-				if (sortState.rootShapeOrder.size() == shapeIndices.size()) {
+				if (sortState.rootShapeOrder.size() == shapeIndices.size()
+					&& std::is_permutation(sortState.rootShapeOrder.begin(), sortState.rootShapeOrder.end(), shapeIndices.begin())) {
 					std::vector<uint32_t> newShapeIndices(shapeIndices.size());
 					for (size_t si = 0; si < sortState.rootShapeOrder.size(); si++) {
 						auto it = find(shapeIndices, sortState.rootShapeOrder[si]);
@@ -582,7 +588,8 @@ void NifFile::SortGraph(NiNode* root, SortState& sortState) {
 
 			if (isRootNode) {
 				// Reorder shapes on root node if order is provided
-				if (sortState.rootShapeOrder.size() == shapeIndices.size()) {
+				if (sortState.rootShapeOrder.size() == shapeIndices.size()
+					&& std::is_permutation(sortState.rootShapeOrder.begin(), sortState.rootShapeOrder.end(), shapeIndices.begin())) {
 					std::vector<uint32_t> newShapeIndices(shapeIndices.size());
 					for (size_t si = 0; si < sortState.rootShapeOrder.size(); si++) {
 						auto it = find(shapeIndices, sortState.rootShapeOrder[si]);
@@ -1166,17 +1173,27 @@ void NifFile::TrimTexturePaths() {
 			return tex;
 
 		// Replace multiple slashes or forward slashes with one backslash
-		tex = std::regex_replace(tex, std::regex("/+|\\\\+"), "\\");
+		tex = std::regex_replace(tex, std::regex("[/\\\\]+"), "\\");
 
-		// Search for the first occurrence of "\textures\" (only if "textures\" isn't at the start)
-		std::smatch match;
-		std::regex pattern(R"(^(?!textures\\).*?\\textures\\)", std::regex_constants::icase);
-	
-		if (std::regex_search(tex, match, pattern))
-			tex = tex.substr(match[0].length()); // Remove matched string
+		// Repeat the removal steps until nothing changes, so that cleaning a cleaned path is a no-op
+		std::string previous;
+		do {
+			previous = tex;
 
-		// Remove all backslashes from the front
-		tex = std::regex_replace(tex, std::regex("^\\\\+"), "");
+			// A "Data\" prefix of a terrain path is added back below
+			if (isTerrain)
+				tex = std::regex_replace(tex, std::regex("^Data\\\\", std::regex_constants::icase), "");
+
+			// Search for the first occurrence of "\textures\" (only if "textures\" isn't at the start)
+			std::smatch match;
+			std::regex pattern(R"(^(?!textures\\)[\s\S]*?\\textures\\)", std::regex_constants::icase);
+
+			if (std::regex_search(tex, match, pattern))
+				tex = tex.substr(match[0].length()); // Remove matched string
+
+			// Remove all backslashes (and whitespace they were hiding) from the front
+			tex = std::regex_replace(tex, std::regex("^[\\\\\\s]+"), "");
+		} while (tex != previous);
 
 		if (!hdr.GetVersion().IsOB() && !hdr.GetVersion().IsSpecial() && is_relative_path(tex)) {
 			// If the path doesn't start with "textures\", add it to the front
@@ -1211,24 +1228,24 @@ void NifFile::TrimTexturePaths() {
 					std::string tex = i.get();
 					i.get() = fTrimPath(tex);
 				}
+			}
 
-				auto effectShader = dynamic_cast<BSEffectShaderProperty*>(shader);
-				if (effectShader) {
-					std::string tex = effectShader->sourceTexture.get();
-					effectShader->sourceTexture.get() = fTrimPath(tex);
+			auto effectShader = dynamic_cast<BSEffectShaderProperty*>(shader);
+			if (effectShader) {
+				std::string tex = effectShader->sourceTexture.get();
+				effectShader->sourceTexture.get() = fTrimPath(tex);
 
-					tex = effectShader->normalTexture.get();
-					effectShader->normalTexture.get() = fTrimPath(tex);
+				tex = effectShader->normalTexture.get();
+				effectShader->normalTexture.get() = fTrimPath(tex);
 
-					tex = effectShader->greyscaleTexture.get();
-					effectShader->greyscaleTexture.get() = fTrimPath(tex);
+				tex = effectShader->greyscaleTexture.get();
+				effectShader->greyscaleTexture.get() = fTrimPath(tex);
 
-					tex = effectShader->envMapTexture.get();
-					effectShader->envMapTexture.get() = fTrimPath(tex);
+				tex = effectShader->envMapTexture.get();
+				effectShader->envMapTexture.get() = fTrimPath(tex);
 
-					tex = effectShader->envMaskTexture.get();
-					effectShader->envMaskTexture.get() = fTrimPath(tex);
-				}
+				tex = effectShader->envMaskTexture.get();
+				effectShader->envMaskTexture.get() = fTrimPath(tex);
 			}
 		}
 
@@ -1423,6 +1440,21 @@ NiShape* NifFile::CloneShape(NiShape* srcShape, const std::string& destShapeName
 				destBoneCont->boneRefs.AddBlockRef(boneID);
 		}
 	}
+
+	// Skeleton root of the skin instance: the source's root node becomes the destination's root node
+	if (rootNode && srcRootNode) {
+		uint32_t srcRootId = srcNif->GetBlockID(srcRootNode);
+		uint32_t destRootId = GetBlockID(rootNode);
+
+		auto destSkinInst = hdr.GetBlock<NiSkinInstance>(destShape->SkinInstanceRef());
+		if (destSkinInst && destSkinInst->targetRef.index == srcRootId)
+			destSkinInst->targetRef.index = destRootId;
+
+		auto destBSSkinInst = hdr.GetBlock<BSSkinInstance>(destShape->SkinInstanceRef());
+		if (destBSSkinInst && destBSSkinInst->targetRef.index == srcRootId)
+			destBSSkinInst->targetRef.index = destRootId;
+	}
+
 	return destShape;
 }
 
@@ -1731,15 +1763,16 @@ OptResult NifFile::OptimizeFor(OptOptions& options) {
 										}
 
 										if (part.hasBoneIndices) {
+											// Partitions can have no (or fewer) bones than their bone indices refer to
+											auto partBone = [&part](const uint8_t boneIndex) {
+												return boneIndex < part.bones.size() ? static_cast<uint8_t>(part.bones[boneIndex]) : uint8_t(0);
+											};
+
 											auto& boneIndices = part.boneIndices[i];
-											vertex.weightBones[0] = static_cast<uint8_t>(
-												part.bones[boneIndices.i1]);
-											vertex.weightBones[1] = static_cast<uint8_t>(
-												part.bones[boneIndices.i2]);
-											vertex.weightBones[2] = static_cast<uint8_t>(
-												part.bones[boneIndices.i3]);
-											vertex.weightBones[3] = static_cast<uint8_t>(
-												part.bones[boneIndices.i4]);
+											vertex.weightBones[0] = partBone(boneIndices.i1);
+											vertex.weightBones[1] = partBone(boneIndices.i2);
+											vertex.weightBones[2] = partBone(boneIndices.i3);
+											vertex.weightBones[3] = partBone(boneIndices.i4);
 										}
 									}
 								}
@@ -2256,11 +2289,7 @@ bool NifFile::RenameDuplicateShapes() {
 	};
 
 	bool renamed = false;
-	auto nodes = GetChildren<NiNode>();
-
-	auto root = GetRootNode();
-	if (root)
-		nodes.push_back(root);
+	auto nodes = GetNodes();
 
 	for (auto& node : nodes) {
 		int dupCount = 0;
@@ -2280,7 +2309,7 @@ bool NifFile::RenameDuplicateShapes() {
 				if (duped) {
 					std::string dup = "_" + std::to_string(dupCount);
 
-					while (countDupes(node, shapeName + dup) > 1) {
+					while (countDupes(node, shapeName + dup) > 0) {
 						dupCount++;
 						dup = "_" + std::to_string(dupCount);
 					}
@@ -2372,7 +2401,10 @@ bool NifFile::GetNodeTransformToGlobal(const std::string& nodeName, MatTransform
 
 		MatTransform xform = node->GetTransformToParent();
 		NiNode* parent = GetParentNode(node);
-		while (parent) {
+
+		// A parent chain can't be longer than the block count. Stops on cyclic child references.
+		size_t depth = 0;
+		while (parent && depth++ < blocks.size()) {
 			xform = parent->GetTransformToParent().ComposeTransforms(xform);
 			parent = GetParentNode(parent);
 		}
@@ -2748,6 +2780,9 @@ bool NifFile::GetShapeBoneBounds(NiShape* shape, const uint32_t boneIndex, Bound
 	if (skinForBoneRef) {
 		auto boneData = hdr.GetBlock(skinForBoneRef->dataRef);
 		if (boneData) {
+			if (boneIndex >= boneData->boneXforms.size())
+				return false;
+
 			outBounds = boneData->boneXforms[boneIndex].bounds;
 			return true;
 		}
@@ -3024,6 +3059,7 @@ void NifFile::SetDefaultPartition(NiShape* shape) {
 		}
 
 		if (!tris.empty()) {
+			part.hasFaces = true;
 			part.numTriangles = static_cast<uint16_t>(tris.size());
 			part.trueTriangles = tris;
 			if (!bMappedIndices)
@@ -4323,7 +4359,7 @@ void NifFile::UpdateSkinPartitions(NiShape* shape) {
 	std::vector<std::set<int>> partBones(skinPart->partitions.size());
 	for (size_t triIndex = 0; triIndex < tris.size(); ++triIndex) {
 		int partInd = triParts[triIndex];
-		if (partInd < 0)
+		if (partInd < 0 || static_cast<size_t>(partInd) >= partBones.size())
 			continue;
 
 		Triangle tri = tris[triIndex];
